@@ -92,7 +92,15 @@ def sensitivity(args, drv):
                 cmd += ["--budget", str(c["budget"])]
             r = subprocess.run(cmd, env=env, capture_output=True, text=True)
             line = [l for l in r.stdout.splitlines() if l.startswith("  rule=")]
-            return c, ("caught" if r.returncode == 1 and "VIOLATION property=%s" % c["check"] in r.stdout else "MISSED(exit %d)" % r.returncode), (line[0].strip()[:160] if line else "")
+            caught = r.returncode == 1 and "VIOLATION property=%s" % c["check"] in r.stdout
+            status = "caught" if caught else "MISSED(exit %d)" % r.returncode
+            if caught:
+                # the replay file must reproduce the violation exactly, in a fresh process, on the same tree
+                rp = [l.split("replay=", 1)[1].strip() for l in r.stdout.splitlines() if l.startswith("VIOLATION property=")][0]
+                r2 = subprocess.run([os.path.join(VERIF, "check"), "replay", rp], env=env, capture_output=True, text=True)
+                if r2.returncode != 1:
+                    status = "REPLAY-FAILED(exit %d)" % r2.returncode
+            return c, status, (line[0].strip()[:160] if line else "")
         finally:
             subprocess.run(["git", "-C", "/repo", "worktree", "remove", "--force", wt], capture_output=True)
             shutil.rmtree("/tmp/verif_sens_replays_%d" % os.getpid(), ignore_errors=True)
